@@ -25,21 +25,38 @@ from .runner import PropertyCheck
 # A value is named by a string; `mkval(name)` builds the Python object.  Everything in a case is
 # a name, so cases are JSON and replay exactly.
 
-NUMBERS_VALID = ['i:5', 'i:2', 'i:10', 'f:5/2', 'f:7', 'f:1/4', 'f:7/2', 'np:f64:2', 'np:f32:3/2', 'np:i64:3', 'True', 'np:True']
+NUMBERS_VALID = ['i:5', 'i:2', 'i:10', 'f:5/2', 'f:7', 'f:1/4', 'f:7/2', 'np:f64:2', 'np:f32:3/2', 'np:i64:3', 'True', 'np:True',
+                 # tiny / huge positive values in every numeric carrier type
+                 'f:5e-324', 'f:1e308', 'i:4611686018427387904', 'np:f64:5e-324', 'np:f64:1e308', 'np:f32:1e-45',
+                 'np:f32:3e38', 'np:f16:6e-8', 'np:f16:60000', 'np:f16:5', 'np:f128:5', 'np:f128:1e-300', 'np:f128:1e300',
+                 'np:i64:4611686018427387904', 'np:i32:7', 'np:i16:30000', 'np:i8:127', 'np:u8:255', 'np:u8:5',
+                 # Python ints that do not fit into 64 bits (2**64, 2**70, 10**30): valid sizes; np.isfinite
+                 # raises TypeError for them (F11b, fixed in ccc4c00 - a return is a domain_value_rejected violation)
+                 'i:18446744073709551616', 'i:1180591620717411303424', 'i:1000000000000000000000000000000']
+# values that must not be used as a vertex COUNT in a constructor (np.arange would allocate them)
+HUGE = {'i:18446744073709551616', 'i:1180591620717411303424', 'i:1000000000000000000000000000000', 'f:1e308', 'i:4611686018427387904', 'np:f64:1e308', 'np:f32:3e38', 'np:f128:1e300', 'np:i64:4611686018427387904'}
 NUMBERS_INVALID = ['i:0', 'i:-3', 'f:0', 'f:-3/2', 'nan', 'inf', '-inf', 'np:f64:nan', 'np:f64:inf', 'np:f64:-inf',
-                   'np:i32:0', 'np:i64:-2', 'False', 'np:False']
-NON_NUMBERS = ['str:abc', 'str:5', 'str:', 'bytes:a', 'None', 'list:1,2', 'list:', 'tuple:1', 'arr0:3', 'arr1:1,2',
+                   'np:i32:0', 'np:i64:-2', 'False', 'np:False',
+                   # 0, -0.0, negative, NaN, +-inf in every numeric carrier type
+                   'f:-0.0', 'np:f64:0', 'np:f64:-0.0', 'np:f64:-3',
+                   'np:f32:0', 'np:f32:-0.0', 'np:f32:-3', 'np:f32:nan', 'np:f32:inf', 'np:f32:-inf',
+                   'np:f16:0', 'np:f16:-0.0', 'np:f16:-3', 'np:f16:nan', 'np:f16:inf', 'np:f16:-inf',
+                   'np:f128:0', 'np:f128:-0.0', 'np:f128:-3', 'np:f128:nan', 'np:f128:inf', 'np:f128:-inf',
+                   'np:i16:0', 'np:i16:-3', 'np:i8:0', 'np:i8:-3', 'np:u8:0', 'i:-4611686018427387904']
+NON_NUMBERS = ['arr0:nan', 'arr0:0', 'arr1:nan', 'arr1:inf', 'str:abc', 'str:5', 'str:', 'bytes:a', 'None', 'list:1,2', 'list:', 'tuple:1', 'arr0:3', 'arr1:1,2',
                'arr1:4', 'arr2', 'callable']
 ANGLES_VALID = ['q:5:deg', 'q:2:deg', 'q:10:deg', 'q:3:arcmin', 'q:7:arcmin', 'q:30:arcsec', 'q:1/2:rad', 'angle:3:deg',
                 'q0d:2:rad',
                 # every unit astropy calls an angle, incl. composite ones, must still be accepted
+                'q:5e-324:deg', 'q:1e308:deg', 'q32:5:deg', 'q32:1e-45:arcsec',
                 'q:5:mas', 'q:2:hourangle', 'q:1/4:cycle', 'q:3:deg2 / arcsec']
 QUANT_OTHER = ['q:0:deg', 'q:-1:arcsec', 'q:nan:deg', 'q:inf:deg', 'q:-inf:deg', 'q:5:pix', 'q:3:m', 'q:4:', 'q:2:s',
-               'qarr:1,2:deg', 'qarr:3:deg',
+               'qarr:1,2:deg', 'qarr:3:deg', 'q:-0.0:deg', 'q32:nan:deg', 'q32:inf:deg', 'q32:-inf:deg', 'q32:0:deg',
+               'q32:-3:arcsec',
                # physical types whose NAME contains / is dimensionally related to the accepted one
                'q:2:sr', 'q:5:deg2', 'q:30:arcsec2', 'q:7:arcmin2', 'q:1/2:rad / s', 'q:3:deg / yr', 'q:2:rad / s2',
                'q:4:1 / deg', 'q:3:deg m', 'q:50:%', 'q:3:pix2', 'q:2:rad2 / sr', 'q:2:Hz', 'qarr:1,2:sr']
-PIX = ['pix:1,2', 'pix:3,-4', 'pix:nan,1', 'pixarr:1,2,3;4,5,6', 'pixarr:0,4,4,0;0,0,3,3', 'pixarr:1;2', 'pix2d']
+PIX = ['pix:1,2', 'pix:3,-4', 'pix:nan,1', 'pix:inf,-inf', 'pix:1e308,5e-324', 'pix:-0.0,0', 'pixarr:1,2,3;4,5,6', 'pixarr:0,4,4,0;0,0,3,3', 'pixarr:1;2', 'pix2d']
 SKY = ['sky:1,2', 'sky:10,-20', 'skygal:1,2', 'skyarr:1,2,3;4,5,6', 'skyarr:1;2', 'sky2d']
 REGS = ['reg:circleP', 'reg:circleS', 'reg:compP']
 DICTS = ['dict:', 'dict:label=a', 'dict:bad=1', 'dict:label=a,bad=1', 'dict:color=red', 'dict:point=x', 'dict:line=1',
@@ -47,14 +64,15 @@ DICTS = ['dict:', 'dict:label=a', 'dict:bad=1', 'dict:label=a,bad=1', 'dict:colo
 # values just outside a size / angle domain in the RIGHT type (0, negative, NaN, +-inf as numbers and as
 # angular Quantities) and the nearest wrong types: also offered to every constructor slot by position
 JUST_OUTSIDE = NUMBERS_INVALID + ['q:0:deg', 'q:-1:arcsec', 'q:nan:deg', 'q:inf:deg', 'q:-inf:deg', 'q:5:pix', 'q:4:',
-                                  'q:2:sr', 'i:5', 'q:5:deg', 'None', 'str:abc', 'pix:1,2', 'sky:1,2']
+                                  'q:2:sr', 'i:5', 'q:5:deg', 'i:18446744073709551616', 'i:1180591620717411303424',
+                                  'i:1000000000000000000000000000000', 'None', 'str:abc', 'pix:1,2', 'sky:1,2']
 CATALOGUE = NUMBERS_VALID + NUMBERS_INVALID + NON_NUMBERS + ANGLES_VALID + QUANT_OTHER + PIX + SKY + REGS + DICTS
 
 
 def _num(s):
-    if s in ('nan', 'inf', '-inf'):
+    if s in ('nan', 'inf', '-inf', '-0.0'):
         return float(s)
-    return float(Fraction(s))
+    return float(Fraction(s))        # 'p/q', decimal and exponent notation
 
 
 def _kv(s):
@@ -82,7 +100,8 @@ def _mkval(name):
         t, _, v = rest.partition(':')
         if rest in ('True', 'False'):
             return np.bool_(rest == 'True')
-        return {'f64': np.float64, 'f32': np.float32, 'i64': np.int64, 'i32': np.int32}[t](_num(v))
+        return {'f64': np.float64, 'f32': np.float32, 'f16': np.float16, 'f128': np.longdouble, 'i64': np.int64,
+                'i32': np.int32, 'i16': np.int16, 'i8': np.int8, 'u8': np.uint8}[t](_num(v))
     if head == 'str':
         return rest
     if head == 'bytes':
@@ -97,11 +116,13 @@ def _mkval(name):
         return np.array([_num(x) for x in rest.split(',')])
     if name == 'arr2':
         return np.ones((2, 2))
-    if head in ('q', 'angle', 'q0d', 'qarr'):
+    if head in ('q', 'q32', 'angle', 'q0d', 'qarr'):
         v, _, unit = rest.partition(':')
         unit = u.Unit(unit) if unit else u.dimensionless_unscaled
         if head == 'q':
             return u.Quantity(_num(v), unit)
+        if head == 'q32':                      # a Quantity that keeps a float32 value
+            return u.Quantity(np.float32(_num(v)), unit, dtype=np.float32)
         if head == 'angle':
             return Angle(_num(v), unit)
         if head == 'q0d':
@@ -203,7 +224,9 @@ def _describe(v):
         ph = next((n for n in ('angle', 'length', 'dimensionless') if pt == n), 'other')
         n = '0'
         if v.size == 1:
-            n = enc(v.to_value(u.deg).item() if ph == 'angle' else np.asarray(v.value).item())
+            # degrees, computed in double precision whatever the dtype of the value (a float32 subnormal
+            # number of arcsec must not underflow to 0)
+            n = enc(float(np.asarray(v.value).item()) * v.unit.to(u.deg) if ph == 'angle' else np.asarray(v.value).item())
         return {'k': 'quantity', 's': bool(v.isscalar), 'nd': int(v.ndim), 'sz': int(v.size), 'n': n, 'ph': ph,
                 't': f'{type(v).__name__}:{v.unit.to_string()}:{list(v.shape)}:{_vals(v.value)}'}
     if isinstance(v, (bool, np.bool_)):
@@ -460,7 +483,7 @@ def in_domain(descr, v):
 
 def _cmp_value(v):
     import astropy.units as u
-    return v.to_value(u.deg) if isinstance(v, u.Quantity) else float(v)
+    return float(np.asarray(v.value).item()) * v.unit.to(u.deg) if isinstance(v, u.Quantity) else float(v)
 
 
 # ------------------------------------------------------------------ the check
@@ -568,6 +591,8 @@ class Check(PropertyCheck):
         for cn in CLASS_NAMES:
             for p, k in ctor_params(cn):
                 for v in CATALOGUE:
+                    if p == 'nvertices' and v in HUGE:
+                        continue            # the constructor would np.arange() that many vertices
                     a = valid_args(cn, rng)
                     a[p] = v
                     cases.append({'kind': 'region', 'cls': cn, 'args': a, 'ops': [], 'grp': 'ctor-sweep'})
@@ -598,6 +623,8 @@ class Check(PropertyCheck):
             a = valid_args(cn, rng)
             for p in rng.sample(sorted(a), min(2, len(a))):
                 a[p] = rng.choice(CATALOGUE)
+                while p == 'nvertices' and a[p] in HUGE:
+                    a[p] = rng.choice(CATALOGUE)
             cases.append({'kind': 'region', 'cls': cn, 'args': a, 'ops': [], 'grp': 'ctor-two-invalid'})
         # random histories
         n_hist = 500 if tier == 'quick' else 20000
